@@ -258,8 +258,10 @@ def validateProposal (s : St) (exec : Bool) (height : Int) (tx : TxIn) : Step St
     if period > s.active.maxVotingPeriodBlocks ∨ period < s.active.minVotingPeriodBlocks then throw (.err "payloadparams")
     -- every option must unmarshal as submitted AND in the form applyProposals reads it (repair: hotfixOption)
     if optType = PROPOSAL_GOVPARAMS ∧ opts.any (fun o => o.parsedV.isNone || o.parsedA.isNone) then throw (.err "payloadparams")
-    let endH := start + period
-    let minApplying := endH + s.active.lazyApplyingBlocks
+    -- Go computes both sums in int64: an overflow of the first is caught by the next test (issue #51), an
+    -- overflow of the second is not (`minApplying` wraps to a negative number and the proposal is accepted)
+    let endH := wrapInt64 (start + period)
+    let minApplying := wrapInt64 (endH + s.active.lazyApplyingBlocks)
     if start > endH then throw (.err "payloadparams")
     if applying < minApplying ∨ endH > applying then throw (.err "payloadparams")
     if opts.isEmpty then throw (.err "payloadparams")
